@@ -151,11 +151,12 @@ struct Layout {
     na: &'static str,   // what the spec's NA character `~` is written as
     trailing_nl: usize, // 0 never, 1 always, 2 random per file
     pre: bool,
+    odd_paths: bool,    // included files and the blacklist file have runs of blanks / a tab in their names
 }
 
 fn layout(id: usize, rng: &mut Rng) -> Layout {
     if id == 0 {
-        return Layout { id, indent: 2, sep_max: 1, cmt: 0, own: 0, permute: false, splits: 0, psep: 1, na: "\u{e9}", trailing_nl: 1, pre: false };
+        return Layout { id, indent: 2, sep_max: 1, cmt: 0, own: 0, permute: false, splits: 0, psep: 1, na: "\u{e9}", trailing_nl: 1, pre: false, odd_paths: false };
     }
     Layout {
         id,
@@ -169,6 +170,7 @@ fn layout(id: usize, rng: &mut Rng) -> Layout {
         na: *rng.pick(&["\u{e9}", "\u{1F600}", "~", "\u{e9}"]),
         trailing_nl: rng.below(3),
         pre: rng.chance(1, 2),
+        odd_paths: rng.chance(1, 2),
     }
 }
 
@@ -276,7 +278,8 @@ impl<'a> Emitter<'a> {
     fn new_file(&mut self, rng: &mut Rng) -> usize {
         let i = self.r.files.len();
         let nl = match self.lay.trailing_nl { 0 => false, 1 => true, _ => rng.chance(1, 2) };
-        self.r.files.push(FileOut { path: format!("{}/{}_i{}.conf", self.dir, self.tag, i), lines: vec![], nl });
+        let name = if self.lay.odd_paths { format!("{}/{} i{}  inc\t.conf", self.dir, self.tag, i) } else { format!("{}/{}_i{}.conf", self.dir, self.tag, i) };
+        self.r.files.push(FileOut { path: name, lines: vec![], nl });
         i
     }
     /// one content line, possibly preceded by blank / comment lines and followed by a comment
@@ -359,7 +362,9 @@ fn render(ast: &Ast, lay: &Layout, dir: &str, tag: &str, rng: &mut Rng) -> Rende
     }
     let mut em = Emitter { lay, dir: dir.to_string(), tag: tag.to_string(),
         r: Rendered { files: vec![], loc: HashMap::new(),
-                      bl_path: if ast.bl_exists { format!("{}/{}_bl.txt", dir, tag) } else { format!("{}/{}_nobl.txt", dir, tag) } } };
+                      bl_path: if !ast.bl_exists { format!("{}/{}_nobl.txt", dir, tag) }
+                               else if lay.odd_paths { format!("{}/{} black   list\t.txt", dir, tag) }
+                               else { format!("{}/{}_bl.txt", dir, tag) } } };
     let nl = match lay.trailing_nl { 0 => false, 1 => true, _ => rng.chance(1, 2) };
     em.r.files.push(FileOut { path: format!("{}/{}_main.conf", dir, tag), lines: vec![], nl });
     if lay.pre {
@@ -610,15 +615,15 @@ fn rand_route(rng: &mut Rng, h: usize, j: usize) -> Entry {
     let ps: Vec<String> = (0..arity).map(|x| format!("/h{}{}{}", h, RT[(j - 1) % 9], PS[x])).collect();
     let mut es = vec![];
     match rng.below(6) {
-        0 => es.push(key("file", &q(&rand_str(rng, &["/var/www/index.html", "/srv/my file.txt", "logo.png"])))),
-        1 => es.push(key("directory", &q(&rand_str(rng, &["/var/www", "/srv/a b", "."])))),
+        0 => es.push(key("file", &q(&rand_str(rng, &["/var/www/index.html", "/srv/my file.txt", "logo.png", "/srv/my  file.txt", " /srv/lead and trail ", "/srv/tab\there"])))),
+        1 => es.push(key("directory", &q(&rand_str(rng, &["/var/www", "/srv/a b", ".", "/srv/reports -  2024/", "/srv/a \t b", " . "])))),
         2 => {
             let n = rng.range(1, 3);
             let t: Vec<String> = (0..n).map(|i| format!("10.0.{}.{}:{}", [5, 9, 2][i], rng.below(256), 8000 + rng.below(100))).collect();
             es.push(key("proxy", &q(&t.join(","))));
             match rng.below(3) { 0 => {} 1 => es.push(key("load_balancer_mode", &q("round-robin"))), _ => es.push(key("load_balancer_mode", &q("random"))) }
         }
-        3 => es.push(key("redirect", &q(&rand_str(rng, &["http://localhost/", "/", "/app/prod"])))),
+        3 => es.push(key("redirect", &q(&rand_str(rng, &["http://localhost/", "/", "/app/prod", "/a   b"])))),
         4 => {}
         _ => es.push(key("directory", &q("/srv/{x}"))),
     }
@@ -631,7 +636,7 @@ fn rand_route(rng: &mut Rng, h: usize, j: usize) -> Entry {
 fn rand_ast(rng: &mut Rng) -> Ast {
     let mut scal: Vec<Entry> = vec![];
     let p = |rng: &mut Rng| rng.chance(1, 2);
-    if p(rng) { scal.push(key("address", &q(&rand_str(rng, &["0.0.0.0", "127.0.0.1", "::1", "my host"])))); }
+    if p(rng) { scal.push(key("address", &q(&rand_str(rng, &["0.0.0.0", "127.0.0.1", "::1", "my host", " my   host "])))); }
     if p(rng) { let x = 1 + rng.below(65535); scal.push(key("port", &rng.pick(&[0usize, 1, 80, 443, 8080, 65535, x]).to_string())); }
     if p(rng) { scal.push(key("threads", &rng.range(1, 512).to_string())); }
     if p(rng) { let x = rng.below(100000); scal.push(key("timeout", &rng.pick(&[0usize, 1, 5, 60, x]).to_string())); }
@@ -648,7 +653,7 @@ fn rand_ast(rng: &mut Rng) -> Ast {
     let mut l = vec![];
     if p(rng) { l.push(key("level", &q(*rng.pick(&["error", "warn", "info", "debug"])))); }
     if p(rng) { l.push(key("console", *rng.pick(&["true", "false"]))); }
-    if p(rng) { l.push(key("file", &q(&rand_str(rng, &["humphrey.log", "/var/log/h u.log"])))); }
+    if p(rng) { l.push(key("file", &q(&rand_str(rng, &["humphrey.log", "/var/log/h u.log", "/var/log/h  u.log", "\tlogs \t x.log "])))); }
     if !l.is_empty() { scal.push(sect("sec", "log", vec![], l)); }
     let mut c = vec![];
     if p(rng) {
@@ -662,7 +667,7 @@ fn rand_ast(rng: &mut Rng) -> Ast {
     if rng.chance(1, 6) { scal.push(sect("sec", "plugins", vec![], vec![sect("sec", "php", vec![], vec![key("library", &q("php.so")), key("threads", "8")])])); }
     if rng.chance(1, 6) { scal.push(key("colour", &q("red"))); }
     let nh = rng.below(5);
-    let hostpats = ["localhost", "*.example.com", "127.0.0.1", "*", "a.b.c"];
+    let hostpats = ["localhost", "*.my  site.com", "127.0.0.1", " * ", "a.b\tc"];
     let mut ordered: Vec<Entry> = vec![];
     for h in 1..=nh {
         let nr = rng.below(9);
